@@ -223,7 +223,7 @@ theorem dot_unitRow (P : Nat) (sqrt : K → K) (a b : Row K) :
       dotP P (centre P a) (centre P b) /
         (sqrt (dotP P (centre P a) (centre P a)) * sqrt (dotP P (centre P b) (centre P b))) := by
   unfold unitRow
-  simp only [centreC_eq]
+  simp only [centreC_eq, Rsa.Gen.C01.corrUnit]
   unfold dotP
   simp only [sumTo_eq_sum, Finset.sum_div]
   apply Finset.sum_congr rfl
